@@ -46,6 +46,9 @@ type Options struct {
 	FullAPI     bool  // api.New + Register (limiter, mux) instead of api/v2 alone
 	Concurrency int
 	GroupFunc   func(context.Context, func(*dispatch.Route) bool, func(*alert.Alert, time.Time) bool) (dispatch.AlertGroups, map[model.Fingerprint][]string, error)
+	// ParkFunc, if set, is served at GET /-/park by the main router handed to api.Register
+	// (a non-API route that goes through the same concurrency limiter).
+	ParkFunc http.HandlerFunc
 }
 
 // Sys is one in-process instance.  Model time t is the instant Origin + t*Unit; the
@@ -169,7 +172,11 @@ func New(o Options) (*Sys, error) {
 			return nil, err
 		}
 		a.Update(cfg, setStatus)
-		y.Handler = a.Register(route.New(), "/")
+		rt := route.New()
+		if o.ParkFunc != nil {
+			rt.Get("/-/park", o.ParkFunc)
+		}
+		y.Handler = a.Register(rt, "/")
 	} else {
 		v2, err := apiv2.NewAPI(y.Alerts, gf, groupMuted, sil, nil, logger, y.Reg)
 		if err != nil {
